@@ -1,10 +1,14 @@
 (* C05 -- Observation runs exactly the requested parameter space, correctly labelled.
    Statements only; the model is Model/ParamSpace.v (pyxel/observation/misc.py ProductMode /
    SequentialMode / CustomMode, observation.py short dimension names), proofs in
-   Proofs/ParamSpace.v and Proofs/ParamSpaceNames.v.  No generated part: the model is tied to the
-   code by the correspondence leg (harness/props/c05.py). *)
+   Proofs/ParamSpace.v and Proofs/ParamSpaceNames.v.  Gen_C05.src_cfg is regenerated from the source on
+   every run (translator/c05.py); the loops of the three modes are tied to the code by the
+   correspondence leg (harness/props/c05.py). *)
 From Coq Require Import ZArith List Bool Arith String Lia.
-From PyxelV Require Import Model.ParamSpace Proofs.ParamSpace Proofs.ParamSpaceNames.
+From Coq Require Import Permutation.
+From PyxelV Require Import Model.ParamSpace Proofs.ParamSpace Proofs.ParamSpaceNames Proofs.ParamSpaceLabels
+                           Proofs.ParamSpaceObserve Proofs.ParamSpaceDask.
+From PyxelGen Require Import Gen_C05.
 Import ListNotations.
 Local Open Scope string_scope.
 Local Open Scope list_scope.
@@ -91,39 +95,246 @@ Theorem C05_disabled_ignored : forall ps get ncols rows,
 Proof. exact disabled_ignored. Qed.
 Print Assumptions C05_disabled_ignored.
 
-(* Short dimension names.  Full statement: distinct swept keys get distinct names. *)
-Definition C05_dim_names_inj_full : Prop :=
-  forall keys m, NoDup keys -> dim_names keys = Some m -> NoDup (map snd m).
+(* Dimension names (observation.py _get_short_dimension_names_new + misc.py _get_short_name_with_model, as
+   read from the source by the translator: Gen_C05.src_cfg).  Distinct swept keys get distinct names -- the
+   names are the rendered strings, so this is also injectivity of the rendering.  (Round 1 refuted this for
+   the unrepaired rule -- DESIGN F19: "<model>.<argument>" drops the model group; repaired by falling back to
+   the full key when a name is still shared.) *)
+Theorem C05_dim_names_inj : forall keys m,
+  NoDup keys -> dim_names src_cfg keys = Some m -> NoDup (map snd m).
+Proof. intros keys m. exact (dim_names_inj src_cfg keys m eq_refl eq_refl). Qed.
+Print Assumptions C05_dim_names_inj.
 
-(* It is false of the code (DESIGN section 7, F19 -- confirmed): the fallback "<model>.<argument>"
-   drops the model group, so the same model name and argument name in two groups collide. *)
-Theorem C05_dim_names_inj_refuted : ~ C05_dim_names_inj_full.
-Proof.
-  intros H.
-  specialize (H ["pipeline.charge_collection.m1.arguments.a"; "pipeline.charge_measurement.m1.arguments.a"]
-                _ ltac:(repeat constructor; simpl; intuition discriminate) eq_refl).
-  vm_compute in H. inversion H as [|? ? Hn _]. apply Hn. left. reflexivity.
-Qed.
-Print Assumptions C05_dim_names_inj_refuted.
-
-(* The exact condition: two keys at different positions get the same name iff both have five dotted
-   components and agree on the 3rd (model name) and the 5th (argument name). *)
-Theorem C05_dim_names_inj_partial : forall keys m,
-  dim_names keys = Some m ->
-  forall i j ki kj di dj, i <> j ->
-    nth_error m i = Some (ki, di) -> nth_error m j = Some (kj, dj) ->
-    (di = dj <-> (with_model ki = with_model kj /\ with_model ki <> None)).
-Proof. exact dim_names_collide_iff. Qed.
-Print Assumptions C05_dim_names_inj_partial.
-
-(* ... and the name table does not exist at all (the code raises) iff a key whose short name is shared
-   does not have five components, e.g. detector.environment.temperature next to
-   pipeline.<group>.<model>.arguments.temperature. *)
+(* ... every key gets a name (round 1: a key without five components whose last component is shared made
+   the five-tuple unpacking raise) ... *)
 Theorem C05_dim_names_defined : forall keys,
-  dim_names keys = None <->
-  exists k, In k keys /\ 2 <= count_str (short_of k) (map short_of keys) /\ with_model k = None.
-Proof. exact dim_names_defined_iff. Qed.
+  exists m, dim_names src_cfg keys = Some m /\ map fst m = keys.
+Proof. intros keys. exact (dim_names_total src_cfg keys eq_refl). Qed.
 Print Assumptions C05_dim_names_defined.
+
+(* ... and a key whose last component is not shared with another swept key is still named by that last
+   component: results of sweeps without a collision keep their coordinate names. *)
+Theorem C05_dim_names_short_kept : forall keys m k n,
+  NoDup keys -> dim_names src_cfg keys = Some m -> In (k, n) m ->
+  count_str (short_of k) (map short_of keys) = 1 -> n = short_of k.
+Proof. intros keys m k n. exact (dim_names_short_kept src_cfg keys m k n eq_refl). Qed.
+Print Assumptions C05_dim_names_short_kept.
+
+(* ------------------------------------------------------------------------------------ labels -> data
+
+   The merge of the per-run results (xr.merge; `assemble`) and the selection by label (`lookup`): after a
+   successful merge every run is found under its own labels with its own data, nothing else is stored
+   and no label appears twice ... *)
+Theorem C05_lookup : forall es r,
+  assemble es = Some r ->
+  (forall l d, In (l, d) es -> lookup l r = Some d) /\
+  (forall l d, In (l, d) r -> In (l, d) es) /\
+  labels_nodup (map fst r) = true.
+Proof. exact assemble_sound. Qed.
+Print Assumptions C05_lookup.
+
+(* ... and the merge fails exactly when two runs carry the same labels and different data. *)
+Theorem C05_merge_conflict : forall es,
+  assemble es = None <->
+  exists l d l' d', In (l, d) es /\ In (l', d') es /\ label_eqb l l' = true /\ d <> d'.
+Proof. exact assemble_none_iff. Qed.
+Print Assumptions C05_merge_conflict.
+
+(* Labels identify runs.  Product mode: with pairwise distinct dimension names, two runs with equal
+   labels have equal parameter values; sequential / custom mode: the id alone tells runs apart. *)
+Theorem C05_labels_identify_runs :
+  (forall names types keys ix1 ix2 v1 v2,
+     NoDup (map (name_of names) keys) ->
+     List.length v1 = List.length keys -> List.length v2 = List.length keys ->
+     List.length ix1 = List.length keys -> List.length ix2 = List.length keys ->
+     label_eqb (product_label names types ix1 (combine keys v1))
+               (product_label names types ix2 (combine keys v2)) = true -> v1 = v2) /\
+  (forall names i j p q, label_eqb (custom_label names i p) (custom_label names j q) = true -> i = j).
+Proof. split; [exact product_label_inj | exact id_label_inj]. Qed.
+Print Assumptions C05_labels_identify_runs.
+
+(* The whole observation, sequential path, product mode, for the naming rule read from the source:
+   distinct keys and no clash with the array dimensions (the code's own "Dimension already exists").
+   The observation runs, executes exactly the requested runs in order, and selecting a run's labels in
+   the assembled result gives the data produced with exactly that run's values. *)
+Theorem C05_product_lookup : forall ps slots table range names,
+  let en := enabled ps in
+  let keys := map p_key en in
+  let types := types_of en in
+  let runs := product_runs ps in
+  NoDup keys ->
+  existsb has_ph en = false ->
+  dim_names src_cfg keys = Some names ->
+  forallb (fun r => str_nodup (product_dims names types (r_index r) (r_params r) ++ reserved_dims)) runs = true ->
+  exists oc, observe src_cfg Product ps slots table range = Some oc /\
+    oc_runs oc = map (fun r => received slots (r_params r)) runs /\
+    (forall r, In r runs ->
+       lookup (product_label names types (r_index r) (r_params r)) (oc_result oc)
+       = Some (data_of slots (r_params r))) /\
+    (forall l d, In (l, d) (oc_result oc) ->
+       exists r, In r runs /\ l = product_label names types (r_index r) (r_params r)
+                 /\ d = data_of slots (r_params r)) /\
+    labels_nodup (map fst (oc_result oc)) = true.
+Proof. exact (product_observe_lookup_cfg src_cfg eq_refl eq_refl). Qed.
+Print Assumptions C05_product_lookup.
+
+(* Sequential mode: any parameters (a key may be swept twice), any vector lengths. *)
+Theorem C05_sequential_lookup : forall ps slots table range,
+  let en := enabled ps in
+  let runs := sequential_runs (default_of slots) ps in
+  existsb has_ph en = false ->
+  exists names oc,
+    dim_names src_cfg (unique (map p_key en)) = Some names /\
+    observe src_cfg Sequential ps slots table range = Some oc /\
+    oc_runs oc = map (fun r => received slots (r_params r)) runs /\
+    (forall r, In r runs ->
+       lookup (custom_label names (hd 0 (r_index r)) (r_params r)) (oc_result oc)
+       = Some (data_of slots (r_params r))) /\
+    (forall l d, In (l, d) (oc_result oc) ->
+       exists r, In r runs /\ l = custom_label names (hd 0 (r_index r)) (r_params r)
+                 /\ d = data_of slots (r_params r)) /\
+    labels_nodup (map fst (oc_result oc)) = true.
+Proof. exact (sequential_observe_lookup_cfg src_cfg eq_refl eq_refl). Qed.
+Print Assumptions C05_sequential_lookup.
+
+(* Custom mode: placeholders whose widths add up to the number of selected columns (column_range may be
+   absent = the whole table), any mix of widths. *)
+Theorem C05_custom_lookup : forall ps slots table range rows,
+  let en := enabled ps in
+  let total := sum_nat (map pwidth en) in
+  let runs := map (fun nr => mkRun (fst nr) [fst nr] (dict_of (spec_custom_row en (snd nr))))
+                  (enumerate_from 0 rows) in
+  forallb is_placeholder en = true ->
+  rows = match range with Some (lo, hi) => map (select_cols lo hi) table | None => table end ->
+  total <> 0 -> total = List.length (hd [] rows) ->
+  exists names oc,
+    dim_names src_cfg (unique (map p_key en)) = Some names /\
+    observe src_cfg Custom ps slots table range = Some oc /\
+    oc_runs oc = map (fun r => received slots (r_params r)) runs /\
+    (forall r, In r runs ->
+       lookup (custom_label names (hd 0 (r_index r)) (r_params r)) (oc_result oc)
+       = Some (data_of slots (r_params r))) /\
+    (forall l d, In (l, d) (oc_result oc) ->
+       exists r, In r runs /\ l = custom_label names (hd 0 (r_index r)) (r_params r)
+                 /\ d = data_of slots (r_params r)) /\
+    labels_nodup (map fst (oc_result oc)) = true.
+Proof. exact (custom_observe_lookup_cfg src_cfg eq_refl eq_refl eq_refl). Qed.
+Print Assumptions C05_custom_lookup.
+
+(* The coordinates _add_product_parameters attaches are the labels the specification (spec_label, used by
+   the check on the implementation's output) expects: the value under the parameter's name and, for a
+   vector-valued parameter, its position under <name>_id. *)
+Theorem C05_product_label_is_spec : forall names en ix vals,
+  NoDup (map p_key en) -> List.length vals = List.length en -> List.length ix = List.length en ->
+  product_label names (types_of en) ix (combine (map p_key en) vals)
+  = spec_label Product names en ix (combine (map p_key en) vals).
+Proof. exact product_label_is_spec. Qed.
+Print Assumptions C05_product_label_is_spec.
+
+(* where the coordinates attached in sequential / custom mode are the specification's labels *)
+Theorem C05_custom_label_is_spec : forall names i params,
+  NoDup (map (fun kv => name_of names (fst kv)) params) ->
+  custom_label names i params = ("id", LI i) :: map (fun kv => (name_of names (fst kv), LV (snd kv))) params.
+Proof. exact custom_label_is_spec. Qed.
+Print Assumptions C05_custom_label_is_spec.
+
+(* ------------------------------------------------------------------------------------ the dask path
+
+   Product mode: create_params labels the axes of the parameter array with pandas' (sorted) levels.  For
+   ANY reordering of the levels: the cells are exactly the requested runs, each once; the merge of the
+   cells never conflicts; every requested run is found under the label made of exactly its values and
+   holds the data produced with them; nothing else is stored. *)
+Theorem C05_dask_product_labels : forall norm names slots en,
+  (forall l, Permutation (norm l) l) ->
+  NoDup (map p_key en) ->
+  NoDup (map (name_of names) (map p_key en)) ->
+  let cells := dask_product_cells norm (dask_steps en) in
+  Permutation cells (map r_params (spec_product en)) /\
+  exists res,
+    assemble (map (fun c => (dask_product_label names c, data_of slots c)) cells) = Some res /\
+    (forall r, In r (spec_product en) ->
+       lookup (spec_label_dask Product names en (r_index r) (r_params r)) res
+       = Some (data_of slots (r_params r))) /\
+    (forall l d, In (l, d) res ->
+       exists r, In r (spec_product en) /\ l = spec_label_dask Product names en (r_index r) (r_params r)
+                 /\ d = data_of slots (r_params r)) /\
+    labels_nodup (map fst res) = true.
+Proof.
+  intros norm names slots en Hp N NN cells. split;
+    [apply dask_product_cells_are_space | apply dask_product_lookup]; auto.
+Qed.
+Print Assumptions C05_dask_product_labels.
+
+Theorem C05_dask_sort_level_permutes : forall l, Permutation (sort_level l) l.
+Proof. exact sort_level_perm. Qed.
+Print Assumptions C05_dask_sort_level_permutes.
+
+(* Full statement for the coded dask path: every well-formed product request (distinct keys, no
+   placeholder, names defined and not clashing with the array dimensions) is run. *)
+Definition C05_dask_product_accepts_full : Prop :=
+  forall ps slots table range names,
+    let en := enabled ps in
+    NoDup (map p_key en) -> existsb has_ph en = false ->
+    dim_names src_cfg (map p_key en) = Some names ->
+    str_nodup (map (name_of names) (map p_key en) ++ reserved_dims) = true ->
+    observe_dask src_cfg Product ps slots table range <> None.
+
+(* It is decided by what ProductMode.create_params does with a repeated value (read from the source):
+   true if the value lists are de-duplicated; false -- witness a = [1.0, 1.0]: pandas refuses the non-unique
+   MultiIndex, finding C05-dask-product-duplicates -- if they are not. *)
+Theorem C05_dask_product_accepts_decided :
+  if cf_dask_product_dedup src_cfg then C05_dask_product_accepts_full else ~ C05_dask_product_accepts_full.
+Proof. exact (dask_product_accepts_decided src_cfg eq_refl eq_refl). Qed.
+Print Assumptions C05_dask_product_accepts_decided.
+
+(* What holds either way: when no list repeats a value (or the lists are de-duplicated) the request is run,
+   exactly the requested runs are executed (never more executions than requested runs), and every run is
+   found under its value-labels with its own data. *)
+Theorem C05_dask_product_accepts_partial : forall ps slots table range names,
+  let en := enabled ps in
+  let keys := map p_key en in
+  NoDup keys ->
+  existsb has_ph en = false ->
+  dim_names src_cfg keys = Some names ->
+  str_nodup (map (name_of names) keys ++ reserved_dims) = true ->
+  cf_dask_product_dedup src_cfg = true \/ forallb (fun s => pvals_nodup (snd s)) (dask_steps en) = true ->
+  exists oc, observe_dask src_cfg Product ps slots table range = Some oc /\
+    (forall x, In x (oc_runs oc) <-> In x (map (fun r => received slots (r_params r)) (spec_product en))) /\
+    List.length (oc_runs oc) <= List.length (spec_product en) /\
+    (forall r, In r (spec_product en) ->
+       lookup (spec_label_dask Product names en (r_index r) (r_params r)) (oc_result oc)
+       = Some (data_of slots (r_params r))) /\
+    (forall l d, In (l, d) (oc_result oc) ->
+       exists r, In r (spec_product en) /\ l = spec_label_dask Product names en (r_index r) (r_params r)
+                 /\ d = data_of slots (r_params r)) /\
+    labels_nodup (map fst (oc_result oc)) = true.
+Proof. exact (dask_product_observe_cfg src_cfg eq_refl eq_refl). Qed.
+Print Assumptions C05_dask_product_accepts_partial.
+
+(* Custom mode on the dask path (convert_custom_data as read from the source): the cell of a table row
+   gives every parameter the columns [off_k, off_k + w_k) -- "_" a number, a list of "_" a vector. *)
+Theorem C05_dask_custom_columns : forall en row,
+  dask_custom_row src_cfg en row 0 = spec_custom_row en row.
+Proof. intros en row. exact (dask_custom_row_spec src_cfg en row eq_refl). Qed.
+Print Assumptions C05_dask_custom_columns.
+
+(* Sequential mode on the dask path.  Full statement: the rows of create_params are the requested runs. *)
+Definition C05_dask_sequential_full : Prop :=
+  forall get ps, dask_seq_cells src_cfg get ps = spec_sequential_params get (enabled ps).
+
+(* It is decided by how SequentialMode.create_params builds its rows (read from the source): true if they
+   come from get_parameters_item (one parameter at a time over the configured values); false -- witness
+   [1,2,3] x [10,12]: the lists are zipped, DESIGN F12, finding C05-dask-sequential-zips -- otherwise. *)
+Theorem C05_dask_sequential_decided :
+  if cf_dask_sequential_rows src_cfg then C05_dask_sequential_full else ~ C05_dask_sequential_full.
+Proof. exact (dask_sequential_decided src_cfg). Qed.
+Print Assumptions C05_dask_sequential_decided.
+
+(* What holds either way: with one enabled parameter the rows are the requested runs, in order. *)
+Theorem C05_dask_sequential_partial : forall get ps p,
+  enabled ps = [p] -> dask_seq_cells src_cfg get ps = spec_sequential_params get [p].
+Proof. exact (dask_seq_cells_one src_cfg). Qed.
+Print Assumptions C05_dask_sequential_partial.
 
 (* ------------------------------------------------------------------------------------ non-vacuity *)
 
@@ -164,13 +375,63 @@ Example ex_custom_accepts_and_slices :
   /\ custom_runs 5 [[1; 2; 3; 4; 5]]%Z ex_custom = None.
 Proof. vm_compute. auto. Qed.
 
+(* the naming rule read from the source is the repaired one *)
+Example ex_src_cfg_names_repaired : cf_name_fallback_full src_cfg = true /\ cf_name_stage3 src_cfg = true.
+Proof. split; reflexivity. Qed.
+
 Example ex_dim_names_fallback_distinct :
-  option_map (map snd) (dim_names ["pipeline.charge_collection.m1.arguments.a";
-                                   "pipeline.charge_collection.m2.arguments.a";
-                                   "detector.environment.temperature"]) =
-  Some [WithModel "m1" "a"; WithModel "m2" "a"; Short "temperature"].
+  option_map (map snd) (dim_names cfg_repaired ["pipeline.charge_collection.m1.arguments.a";
+                                                "pipeline.charge_collection.m2.arguments.a";
+                                                "detector.environment.temperature"]) =
+  Some ["m1.a"; "m2.a"; "temperature"].
 Proof. vm_compute. reflexivity. Qed.
 
-Example ex_dim_names_undefined :
-  dim_names ["detector.environment.temperature"; "pipeline.charge_collection.m1.arguments.temperature"] = None.
+(* the two round-1 witnesses now get distinct, defined names *)
+Example ex_dim_names_same_model_two_groups :
+  option_map (map snd) (dim_names cfg_repaired ["pipeline.charge_collection.m1.arguments.a";
+                                                "pipeline.charge_measurement.m1.arguments.a";
+                                                "pipeline.charge_measurement.m2.arguments.b"]) =
+  Some ["pipeline.charge_collection.m1.arguments.a"; "pipeline.charge_measurement.m1.arguments.a"; "b"].
+Proof. vm_compute. reflexivity. Qed.
+
+Example ex_dim_names_detector_and_argument :
+  option_map (map snd) (dim_names cfg_repaired ["detector.environment.temperature";
+                                                "pipeline.charge_collection.m1.arguments.temperature"]) =
+  Some ["detector.environment.temperature"; "m1.temperature"].
+Proof. vm_compute. reflexivity. Qed.
+
+(* the hypotheses of C05_product_lookup / C05_dask_product_accepts_partial are satisfiable *)
+Definition ex_names : list (string * string) :=
+  [("pipeline.charge_collection.m1.arguments.a", "a"); ("pipeline.charge_collection.m1.arguments.v", "v")].
+
+Example ex_product_lookup_hypotheses :
+  dim_names cfg_repaired (map p_key (enabled ex_ps)) = Some ex_names /\
+  existsb has_ph (enabled ex_ps) = false /\
+  forallb (fun r => str_nodup (product_dims ex_names (types_of (enabled ex_ps)) (r_index r) (r_params r)
+                               ++ reserved_dims)) (product_runs ex_ps) = true.
+Proof. vm_compute. auto. Qed.
+
+Definition ex_ps_unsorted : list param :=
+  [ mkParam "pipeline.charge_collection.m1.arguments.a" (Lit [Sc 24; Sc 8; Sc 16]) true;
+    mkParam "pipeline.charge_collection.m1.arguments.v" (Lit [Vec [8; 16]%Z; Vec [4; 2]%Z]) true ].
+
+(* the dask path on an unsorted list: the run with a = 3.0 (24/8), v = (1.0, 2.0) is found under exactly
+   these labels, with the data its values encode *)
+Example ex_dask_unsorted_lookup :
+  forallb (fun s => pvals_nodup (snd s)) (dask_steps (enabled ex_ps_unsorted)) = true /\
+  option_map (fun oc => lookup [("a", LV (Sc 24)); ("v", LV (Vec [8; 16]%Z))] (oc_result oc))
+             (observe_dask cfg_repaired Product ex_ps_unsorted
+                [("pipeline.charge_collection.m1.arguments.a", Sc 1);
+                 ("pipeline.charge_collection.m1.arguments.v", Vec [1; 1]%Z)] [] None)
+  = Some (Some (24 + 64 * (8 + 64 * 16))%Z).
+Proof. vm_compute. auto. Qed.
+
+Example ex_merge_conflict :
+  assemble [([("a", LV (Sc 8))], 1%Z); ([("a", LV (Sc 8))], 2%Z)] = None /\
+  assemble [([("a", LV (Sc 8))], 1%Z); ([("a", LV (Sc 8))], 1%Z)] = Some [([("a", LV (Sc 8))], 1%Z)].
+Proof. vm_compute. auto. Qed.
+
+Example ex_dask_custom_columns :
+  dask_custom_row cfg_repaired (enabled ex_custom) [1; 2; 3; 4]%Z 0 =
+  [("k.a", Sc 1); ("k.v", Vec [2; 3]%Z); ("k.b", Sc 4)]%Z.
 Proof. vm_compute. reflexivity. Qed.
